@@ -155,7 +155,8 @@ _p('C01', 'Attack-graph edges are exactly the MAL meaning of the step expression
             'R8vii: the child lookup name is built with the same template as the full-name index key',
             'R18: field navigation (model and language graph) tests each orientation on its own: field on one '
             'side and source on the other side; nothing is inferred through an else',
-            'R22: the variable lookup is not memoised under a key that ignores the asset type'],
+            'R22: the variable lookup is not memoised under a key that ignores the asset type',
+            "R6 / R17 T10 on _get_attacks_for_asset_type: the expressions a step resolves to are the fold of the ancestors' declarations, never aliased between types"],
    undecided=['that the evaluator implements MAL set semantics for every nesting',
               'variable resolution by the first target type', 'transitive start-asset convention'],
    anchors=[('R1', '_process_step_expression'), ('R2', 'AttackGraph._generate_graph'),
@@ -169,7 +170,8 @@ _p('C02', 'One node per asset x step, with attributes faithful to model and lang
             'R4: add_node honours an explicit id by an is-None test, its duplicate test checks the '
             'id that is actually stored, the counter is max(id+1, counter); the asset name that '
             'add_asset records was tested for uniqueness after its last assignment (full names '
-            'are asset name + step name)'],
+            'are asset name + step name)',
+            "R14 / R19 / R20 on the evaluator: existence status is the evaluator's answer (transitive sub-type test, closure+); R6 NODEFRESH"],
    undecided=['value-level equality of node attributes', 'pjs default/validation behaviour'],
    anchors=[('R3', 'AttackGraph.add_node'), ('R4', 'AttackGraph.add_node'), ('R4', 'Model.add_asset')])
 
@@ -195,7 +197,8 @@ _p('C04', 'The MAL compiler\'s output is the language the source text denotes',
             'R13b: children the grammar can repeat without bound are consumed in full',
             'R13c: operator chains read the operator between each pair of operands',
             'R13d: every rule reference / content token of a grammar rule is consumed by its visitor',
-            'R9a: included files are compiled through the same checked entry point'],
+            'R9a: included files are compiled through the same checked entry point',
+            'R13c: an operator token of a chain with alternatives is never picked by its own ordinal (ctx.PLUS(i))'],
    undecided=['precedence/associativity of the produced trees', 'field-vs-step classification by token scanning',
               'multiplicity normalisation', 'include merge order', 'equality with malc output'],
    anchors=[('R13', 'malVisitor.visitTtcterm'), ('R13', 'malVisitor.visitExpr'), ('R13', 'malVisitor.visitStep'),
@@ -246,7 +249,8 @@ _p('C07', 'Saving and loading a model preserves it (JSON and YAML)',
             'keys are int()-ed before use',
             'R8 iv: serialised mappings are keyed by guarded-unique keys; R8 v: sibling serialisers agree; '
             'R8 vi: .json/.yml/.yaml tables of save and load agree and dispatch to the right library',
-            'R4: explicit ids (0 included) are honoured by add_asset / add_attacker'],
+            'R4: explicit ids (0 included) are honoured by add_asset / add_attacker',
+            'R8 viii: the json / yaml calls of file_utils carry no value-rewriting hook and hand the loaded object back as is; R8 iii: no lossy writer conversion; R22: no per-model cache keyed by less than the value depends on'],
    undecided=['YAML/JSON library behaviour on exotic strings', 'value equality of the reloaded model'],
    anchors=[('R8', 'Model._from_dict'), ('R8', 'Model._to_dict'), ('R8', 'Model.load_from_file'),
             ('R4', 'Model.add_asset'), ('R4', 'Model.add_attacker')], floor=30)
@@ -277,7 +281,8 @@ _p('C09', 'Attack-graph structure and lookup indexes stay consistent in any hist
             'remove_node / remove_attacker clean every referrer (neighbours, attackers, entry points)',
             'R3: nodes <-> _id_to_node, _full_name_to_node, next_node_id and attackers <-> '
             '_id_to_attacker, next_attacker_id move together; regenerate_graph re-initialises '
-            'everything __init__ initialises'],
+            'everything __init__ initialises',
+            'R4e: an object is filed in a lookup dictionary only after the fields its key is read from (also through full_name) got their final value'],
    undecided=['whole-history equivalence regenerated = fresh beyond RESET = INIT'],
    anchors=[('R1', 'AttackGraph.remove_node'), ('R1', 'AttackGraph.remove_attacker'),
             ('R2', 'AttackGraph.remove_node'), ('R2', 'AttackGraph._generate_graph'),
@@ -314,7 +319,8 @@ _p('C11', 'Attackers and nodes always agree on what is compromised',
             'R7c: the graph copy re-links compromised_by from memo-mapped attackers',
             'R20 OWNNODES: attach_attackers / add_attacker compromise and record only nodes taken from this '
             'graph\'s own containers (lookup by full name / id), never model-side caches',
-            'R8vii: the entry-point lookup name uses the same template as the full-name index key'],
+            'R8vii: the entry-point lookup name uses the same template as the full-name index key',
+            'R17 T14-T16: is_compromised_by is membership in compromised_by; compromise / undo_compromise change both lists together, guarded by that test'],
    undecided=['pjs/name lookups'],
    anchors=[('R1', 'AttackGraph.remove_attacker'), ('R2', 'Attacker.compromise'),
             ('R2', 'Attacker.undo_compromise'), ('R2', 'AttackGraph.remove_attacker'),
@@ -341,7 +347,8 @@ _p('C13', 'Pruning removes exactly the non-viable or unnecessary attack steps',
             'node is visited)',
             'R2/R3 on remove_node: neighbours, attackers, entry points and both indexes are cleaned',
             'R17 T6: a node is removed iff type in {or, and} and (not viable or not necessary), through '
-            'remove_node, over a snapshot, with no write to a label'],
+            'remove_node, over a snapshot, with no write to a label',
+            'R10 LABELS: no assignment to is_viable / is_necessary is reachable from pruning or node removal'],
    undecided=['that remove_node leaves a C09-consistent graph for every graph shape'],
    anchors=[('R1', 'prune_unviable_and_unnecessary_nodes'), ('R2', 'AttackGraph.remove_node'),
             ('R3', 'AttackGraph.remove_node')],
@@ -355,7 +362,8 @@ _p('C14', 'A deep copy of an attack graph is equal and fully independent',
             'memo, or shallow copy of scalars); containers of graph objects thread the memo',
             'R7c: children, parents, compromised_by are re-linked by the graph copy from memo-mapped copies',
             'R7d: node list, attackers, lookup dictionaries and counters are carried over',
-            'R7e: each __deepcopy__ consults the memo and registers its copy'],
+            'R7e: each __deepcopy__ consults the memo and registers its copy',
+            'R7b: deep copies of free-form containers (extras, ttc, attributes) thread the memo of the enclosing copy'],
    undecided=['behaviour of copy.deepcopy itself', 'value equality of serialised content'],
    anchors=[('R7', 'AttackGraphNode.__deepcopy__'), ('R7', 'Attacker.__deepcopy__'),
             ('R7', 'AttackGraph.__deepcopy__')], floor=20)
@@ -369,7 +377,8 @@ _p('C16', 'Graph generation is deterministic and does not disturb its inputs',
             'random / time / directory-listing source',
             'R10 MODREF: generation, attach, analysis, pruning and graph loading write nothing reachable from '
             'the model or language except asset.attack_step_nodes',
-            'R22: memo caches are keyed by everything the value depends on'],
+            'R22: memo caches are keyed by everything the value depends on',
+            'R6 NODEFRESH: the mutable data of every generated node comes from a deep-fresh call made inside the per-asset loop, never from a field of the language graph or model; R25 GLOBALSTATE: no module-level cache / lru_cache / shared compiler object'],
    undecided=['third-party internals (pjs, yaml, json ordering)', 'cross-process equality as such'],
    anchors=[('R6', 'LanguageGraph._get_attacks_for_asset_type'), ('R6', 'AttackGraph._generate_graph')],
    floor=5)
@@ -378,7 +387,8 @@ _p('C17', 'Malformed MAL source is rejected, never half-compiled',
    ['R9', 'R25'],
    decided=['R9a: the parse tree reaches the visitor only under one of the accepted error idioms (raising '
             'error listener installed before the start rule / bail strategy / tested error count); the parser '
-            'is constructed nowhere else; includes go through MalCompiler.compile'],
+            'is constructed nowhere else; includes go through MalCompiler.compile',
+            'R9a: a listener whose syntaxError can return normally is no handling unless the error count / its state is tested after the parse; the compile error is not caught around the start rule'],
    undecided=['that the ANTLR runtime reports every grammar violation to the listener (trusted)'],
    anchors=[('R9', 'MalCompiler.compile')], floor=2)
 
@@ -426,7 +436,8 @@ _p('C19', 'Neo4j export is isomorphic to what is exported, and import inverts it
             'R16c: everything built reaches Subgraph, and begin -> create -> commit on every path',
             'R16d: the node properties get_model reads are the ones ingest_model writes',
             'R15: get_model transfers every row into the model and adds entry points per asset',
-            'R22: lookups memoised during import are keyed by all their arguments'],
+            'R22: lookups memoised during import are keyed by all their arguments',
+            'R15: in get_model only the already-exists guard may skip add_association; R25: no generator is consumed twice while building relationships'],
    undecided=['py2neo behaviour', 'label direction semantics of the Cypher queries'],
    anchors=[('R16', 'ingest_model'), ('R16', 'ingest_attack_graph'), ('R15', 'get_model')], floor=8)
 
